@@ -104,16 +104,26 @@ def run_cli(lang, flags, lines, tagger):
         dlang.set_global_language_to('en')
 
 
-def cli_case(rng, lang, fmt=None, many=False, focus=None):
-    """a document over the real grammar of `lang`, beam / n-best / length options, the flags for them"""
-    m = rng.randint(21, 24) if many else rng.randint(1, 3)
+def cli_case(rng, lang, fmt=None, many=False, focus=None, long_mix=False):
+    """a document over the real grammar of `lang`, beam / n-best / length options, the flags for them;
+    long_mix: --max-length is the length of the shortest sentence, so that over-long sentences stand next to
+    ordinary ones in one document"""
+    m = rng.randint(21, 24) if many else (rng.randint(2, 4) if long_mix else rng.randint(1, 3))
     base, sents, cats, root_cats, _bf, _uf = glue_checks.full_stack_problem(rng, lang, m)
+    forced_len = None
+    if long_mix:
+        lens = [p.n for p, _ in sents]
+        if len(set(lens)) > 1:
+            forced_len = min(lens)
     opts = dict(nbest=rng.choice([1, 1, 2, 3]), pruning=rng.choice([1, 2, 3, 50, 0, len(cats)]), penalty=rng.choice([0, 6, 13]),
                 use_beta=rng.random() < 0.5, beta=rng.choice([0.5, 0.1, 0.001, 1.0, 2.0]), max_length=rng.choice([250, 250, 3]),
                 procs=rng.randint(1, 3), max_step=3000)
+    if forced_len is not None:
+        opts['max_length'] = forced_len
     if focus == 'nbest':
         # more parses asked for than tags admitted per word: the n-best list is limited by the derivations only
-        opts.update(nbest=rng.choice([3, 4, 5, 8]), pruning=rng.choice([2, 2, 3]), use_beta=False, max_length=250)
+        opts.update(nbest=rng.choice([3, 4, 5, 8]), pruning=rng.choice([2, 2, 3]), use_beta=False,
+                    max_length=250 if forced_len is None else forced_len)
     groups = [['--nbest', str(opts['nbest'])], ['--pruning-size', str(opts['pruning'])], ['--unary-penalty', repr(opts['penalty'] / S.SCALE)],
               ['--beta', repr(opts['beta'])], ['--max-length', str(opts['max_length'])], ['--max-step', str(opts['max_step'])],
               ['--num-processes', str(opts['procs'])], ['--root-cats', '|'.join(str(c) for c in root_cats)], ['--format', fmt or 'auto']]
@@ -314,7 +324,7 @@ def cli_suite(ctx, count, formats=None, focus=None):
         import render_common
         offered = [f for f in (formats or []) if f in render_common.offered(lang)]
         fmt = rng.choice(offered) if offered and k % 2 else 'auto'
-        case = cli_case(rng, lang, fmt, many=(k % 10 == 7), focus=(focus if k % 2 == 0 else None))
+        case = cli_case(rng, lang, fmt, many=(k % 10 == 7), focus=(focus if k % 2 == 0 else None), long_mix=(k % 6 == 5))
         desc = dict(lang=lang, flags=case['flags'], lines=case['lines'][:4], categories=[str(c) for c in case['cats']],
                     sentences=[p.to_json() for p, _ in case['sents'][:3]])
         tagger = FakeTagger(case['scores'], [str(c) for c in case['cats']])
